@@ -412,7 +412,13 @@ def sort_issues(issues, reverse=False):
             if key in int_sort_list:
                 result.append(d.get(key, -1))
             else:
-                result.append(d.get(key, ""))
+                # Column labels are numbers in sheets without a header row and text otherwise (absent: ""), and the
+                # two cannot be compared: missing first, then numbers in numeric order, then text.
+                value = d.get(key, "")
+                if isinstance(value, str):
+                    result.append((2 if value else 0, 0, value))
+                else:
+                    result.append((1, value, ""))
         return tuple(result)
 
     issues = sorted(issues, key=_get_keys, reverse=reverse)
